@@ -347,16 +347,18 @@ def oracle_sweep(ctx, rng, n):
             if reg is reg0 and not reg.is_rodded and not bad:
                 tg = np.broadcast_to(np.asarray(t_gap, dtype=float), (6,)) if np.ndim(t_gap) == 0 else np.asarray(t_gap, dtype=float)
                 hg = np.broadcast_to(np.asarray(h_gap, dtype=float), (6,)) if np.ndim(h_gap) == 0 else np.asarray(h_gap, dtype=float)
-                # the single-node model solves the wall BEFORE it advances the coolant (coolant and film coefficient of the plane it
-                # starts from), the six-node model after it
-                six = getattr(reg, 'model', 'simple') == '6node'
-                tc = np.asarray(reg.temp['coolant_int'], dtype=float) if six else pre[0]
-                h_in_ = float(np.ravel(reg.coolant_params['htc'])[0]) if six else pre[1]
+                # the wall is solved against the coolant and film coefficient either of the plane the step starts from (wall first,
+                # then coolant) or of the plane it ends on (coolant first): the property does not prescribe which, so a wall
+                # cell passes when the slab identities hold for one of the two
+                post = (np.asarray(reg.temp['coolant_int'], dtype=float), float(np.ravel(reg.coolant_params['htc'])[0]))
                 for j in range(6):
-                    res = flux_residuals(float(tc[j if tc.shape[0] == 6 else 0]), float(tg[j]), h_in_,
-                                         float(hg[j]), 0.0, reg.duct_thickness, reg.duct.thermal_conductivity,
-                                         float(reg.temp['duct_mw'][0, j]), float(reg.temp['duct_surf'][0, 0, j]),
-                                         float(reg.temp['duct_surf'][0, 1, j]), bool(adiabatic))
+                    cands = []
+                    for tc, h_in_ in (pre, post):
+                        cands.append(flux_residuals(float(tc[j if tc.shape[0] == 6 else 0]), float(tg[j]), h_in_,
+                                                    float(hg[j]), 0.0, reg.duct_thickness, reg.duct.thermal_conductivity,
+                                                    float(reg.temp['duct_mw'][0, j]), float(reg.temp['duct_surf'][0, 0, j]),
+                                                    float(reg.temp['duct_surf'][0, 1, j]), bool(adiabatic)))
+                    res = min(cands, key=lambda rs: max(abs(v) for v in rs.values()))
                     w = max(abs(v) for v in res.values())
                     if w > 1e-6:          # (small wall-to-gap differences in a sweep: cancellation costs a few digits)
                         bad.append((self.id, getattr(reg, 'model', 'simple'), j, bool(adiabatic), bool(ebal), res))
